@@ -281,6 +281,8 @@ def order_rule(prog, rep, rule="ORDER", windowless=False):
     descs = {}
     # sqlite
     ss = _site(prog, "get_events", "select", "events")
+    if len(ss) > 1 and _one_statement(ss) is not None:
+        ss = ss[:1]  # the same statement text run at several sites: one statement
     if len(ss) != 1:
         rep.undecided(rule, "SqliteStorage.get_events", "SELECT events", f"{len(ss)} SELECT statements")
     else:
@@ -396,6 +398,8 @@ def last_rule(prog, rep, rule="LAST", stream_assumption=False):
     # sqlite
     rl = _site(prog, "replace_last", "update", "events")
     ge = _site(prog, "get_events", "select", "events")
+    if len(ge) > 1 and _one_statement(ge) is not None:
+        ge = ge[:1]
     deleg = None
     if not rl and len(ge) == 1:
         # delegation: the target is what a limit-1 read of the same bucket returns, rewritten through replace()
@@ -774,6 +778,14 @@ def pred_sqlite(prog, rep, rule="PRED", scale_expected=1000000):
         fn = f"SqliteStorage.{m}"
         if len(ss) > 1 and keyset_rebinding(prog, rep, ss, rule):
             continue
+        if len(ss) > 1 and _one_statement(ss) is not None:
+            # the same statement text at several call sites: the window bindings of every site must be the same expressions
+            same = all(s_.bindings is not None and ss[0].bindings is not None and len(s_.bindings) == len(ss[0].bindings) for s_ in ss)
+            if same:
+                widx = [c.right.index if c.left.kind == "col" else c.left.index for c in ss[0].stmt.where if (c.left.kind == "col" and c.left.name in ("starttime", "endtime") and c.right.kind == "param") or (c.right.kind == "col" and c.right.name in ("starttime", "endtime") and c.left.kind == "param")]
+                same = all(norm(s_.bindings[i]) == norm(ss[0].bindings[i]) for s_ in ss for i in widx)
+            if same:
+                ss = ss[:1]
         if len(ss) != 1:
             rep.undecided(rule, fn, "SELECT events", f"{len(ss)} SELECT statements")
             continue
@@ -996,6 +1008,36 @@ def limit_rule(prog, rep, rule="LIMIT"):
                 ok = lim is not None and lim.kind == "param" and norm(s.bindings[lim.index]) == "limit"
                 rep.check(ok, rule, fi.short, "LIMIT ?", "bound to limit", f"LIMIT is {lim.text() if lim else 'absent'}{' bound to ' + norm(s.bindings[lim.index]) if lim is not None and lim.kind == 'param' else ''}: the limit asked for is not applied", s.loc())
                 _limit_rebinds(fi, rep, rule, allowed_neg=("-1",))
+            elif len(ss) > 1:
+                # several sites: each binds LIMIT to the limit asked for, or to -1 where the limit cannot be positive
+                def _pos_ok(u, v, lab):
+                    if lab and lab[0] == "cond":
+                        t, pol = norm(lab[1]), lab[2]
+                        if t in ("limit > 0", "0 < limit", "limit >= 1") and pol is False:
+                            return False
+                        if t in ("limit < 0", "0 > limit", "limit <= -1", "limit <= 0") and pol is True:
+                            return False
+                    return True
+
+                reach_pos = g.reach_filtered(g.entry, _pos_ok)  # nodes a positive limit can reach
+                for s in ss:
+                    lim = s.stmt.limit
+                    b_ = norm(s.bindings[lim.index]) if lim is not None and lim.kind == "param" and s.bindings and lim.index < len(s.bindings) else None
+                    in_nonpos_arm = False
+                    x_, pr_ = s.call, parent(s.call)
+                    while pr_ is not None and not isinstance(pr_, ast.stmt):
+                        if isinstance(pr_, ast.IfExp):
+                            t_ = norm(pr_.test)
+                            in_else = any(x_ is y for y in ast.walk(pr_.orelse))
+                            in_body = any(x_ is y for y in ast.walk(pr_.body))
+                            if (in_else and t_ in ("limit > 0", "0 < limit", "limit >= 1")) or (in_body and t_ in ("limit < 0", "0 > limit", "limit <= -1", "limit <= 0")):
+                                in_nonpos_arm = True
+                        x_, pr_ = pr_, parent(pr_)
+                    ok = b_ == "limit" or (b_ == "-1" and (in_nonpos_arm or g.node_of(s.call) not in reach_pos))
+                    rep.check(ok, rule, fi.short, f"LIMIT ? (line {s.call.lineno})", "bound to limit, or to -1 where the limit is not positive", f"LIMIT is {lim.text() if lim else 'absent'}{' bound to ' + str(b_) if b_ else ''} at a call site a positive limit can reach: the limit asked for is not applied", s.loc())
+                _limit_rebinds(fi, rep, rule, allowed_neg=("-1",))
+            else:
+                rep.undecided(rule, fi.short, "LIMIT ?", "no SELECT statement on events found", fi.loc())
         else:
             chs = [c for c in peewee_chains(prog) if c.fi is fi and c.model == "EventModel"]
             if len(chs) == 1:
